@@ -575,15 +575,23 @@ func (w *world) active() []int {
 // when there are many.
 func (w *world) project(touched ...int) ([]dirProj, []leafProj) {
 	ps := []dirProj{}
-	for id := 0; id < len(w.dirs); id++ {
-		if w.dirs[id] == nil || w.retired[id] {
-			continue
+	// Scanning a directory may name further directories (with reserved,
+	// possibly smaller ids): repeat until every named directory was scanned.
+	scanned := map[int]bool{}
+	for again := true; again; {
+		again = false
+		for id := 0; id < len(w.dirs); id++ {
+			if w.dirs[id] == nil || w.retired[id] || scanned[id] {
+				continue
+			}
+			t := false
+			for _, x := range touched {
+				t = t || x == id
+			}
+			scanned[id] = true
+			again = true
+			ps = append(ps, w.scan(id, t))
 		}
-		t := false
-		for _, x := range touched {
-			t = t || x == id
-		}
-		ps = append(ps, w.scan(id, t))
 	}
 	ls := []leafProj{}
 	ids := []int{}
